@@ -695,31 +695,45 @@ def canon_live(sx):
     return out
 
 
-class ImportSpec(Spec):
-    """properties decided on what go_online makes of peers and crates.io"""
+class SimpleSpec(Spec):
+    """one observation string per case on both sides, compared after canonicalisation"""
     quick_n = 120
     thorough_n = 2500
-
-    def model_modules_paths(self):
-        return ["ShowImports"]
+    model_imports = []
 
     def gen_cases(self, rng, n):
-        return [gen.gen_import_case(rng, f"i{i}") for i in range(n)]
+        raise NotImplementedError
 
-    def project(self, live):
-        return live
+    def model_expr(self, o):
+        raise NotImplementedError
 
-    def oracle(self, case, o, live):
+    def canon(self, text):
+        return text
+
+    def project(self, c):
+        return c
+
+    def oracle(self, case, o, c):
         return []
 
     def post_oracle(self, bycase, obs):
         return []
 
-    def nontrivial(self, case, o, live):
+    def nontrivial(self, case, o, c):
         return True
 
     def findings(self):
         return []
+
+    def describe(self, case, o):
+        return {"id": case["id"], "observation": o.get("obs", "")[:500]}
+
+    def tag(self, case, o, c):
+        return o["status"]
+
+    def refused_ok(self, case, o):
+        """a store the implementation refuses is not a case for this property"""
+        return True
 
     def run(self, rng, tier, work, model_ok=True, ncases=None, replay=None):
         n = ncases or (self.quick_n if tier == "quick" else self.thorough_n)
@@ -736,12 +750,8 @@ class ImportSpec(Spec):
         cases = cases + [c for _, c, _ in finds]
         cases = [gen.finalize(c) if "store_struct" in c and "store" not in c else c for c in cases]
         obs = vetlib.run_harness([gen.strip_struct(c) for c in cases], os.path.join(work, "impl"))
-        exprs = []
-        for cid, o in obs.items():
-            if o["status"] == "ok":
-                mi = o["model_input"]
-                exprs.append((cid, f"slive (go_online {coq(mi['table'])} {coq(mi['imports'])} {coq(mi['crates'])})"))
-        model = vetlib.run_model(exprs, os.path.join(work, "model"), IMPORT_MODEL) if model_ok else {}
+        exprs = [(cid, self.model_expr(o)) for cid, o in obs.items() if o["status"] == "ok" and "model_input" in o]
+        model = vetlib.run_model(exprs, os.path.join(work, "model"), self.model_imports) if model_ok else {}
         res = {"cases": [c["id"] for c in cases], "mismatches": [], "oracle_failures": [], "samples": [],
                "findings_seen": {}, "stats": {}}
         bycase = {c["id"]: c for c in cases}
@@ -752,37 +762,36 @@ class ImportSpec(Spec):
         dist = Counter()
         for cid, o in obs.items():
             case = bycase[cid]
-            if o["status"] == "refused":
+            if o["status"] == "refused" and self.refused_ok(case, o):
                 dist["refused:" + o.get("error_kind", "?")] += 1
                 continue
             if o["status"] != "ok":
                 res["mismatches"].append({"id": cid, "why": f"implementation {o['status']}: " + str(o.get("panic") or o.get("error"))[:300],
                                           "case": gen.strip_struct(case)})
                 continue
-            live = canon_live(o["obs"])
-            if model_ok:
+            c = self.canon(o["obs"])
+            if model_ok and "model_input" in o:
                 m = model.get(cid, "MODEL-ERROR: missing")
                 if m.startswith("MODEL-ERROR"):
                     res["mismatches"].append({"id": cid, "why": "model evaluation failed: " + m[:300], "case": gen.strip_struct(case)})
                 else:
                     compared += 1
-                    if self.project(canon_live(m)) != self.project(live):
-                        res["mismatches"].append({"id": cid, "why": "live imports differ", "impl": json.dumps(self.project(live))[:800],
-                                                  "model": json.dumps(self.project(canon_live(m)))[:800], "case": gen.strip_struct(case)})
-            for what in self.oracle(case, o, live):
+                    cm = self.canon(m)
+                    if self.project(cm) != self.project(c):
+                        res["mismatches"].append({"id": cid, "why": "observation differs", "impl": json.dumps(self.project(c))[:800],
+                                                  "model": json.dumps(self.project(cm))[:800], "case": gen.strip_struct(case)})
+            for what in self.oracle(case, o, c):
                 fid = what.get("finding") if isinstance(what, dict) else None
                 text = what["what"] if isinstance(what, dict) else what
                 res["oracle_failures"].append({"id": cid, "what": text, "finding": fid, "case": gen.strip_struct(case)})
-            if self.nontrivial(case, o, live):
-                h = hashlib.sha256(json.dumps(self.project(live), sort_keys=True).encode()).hexdigest()
+            if self.nontrivial(case, o, c):
+                h = hashlib.sha256(json.dumps(self.project(c), sort_keys=True).encode()).hexdigest()
                 if h not in seen:
                     seen.add(h)
                     nontrivial += 1
-            dist["imports:%d" % len(live.get("imports", []))] += 1
-            if len(res["samples"]) < 2 and cid.startswith("i") and "-" not in cid:
-                res["samples"].append({"id": cid, "config": case["store"]["config"][:700],
-                                       "peers": {u: t[:500] for u, t in list(case.get("peers", {}).items())[:2]},
-                                       "observation": o["obs"][:500]})
+            dist[self.tag(case, o, c)] += 1
+            if len(res["samples"]) < 2 and "-" not in cid:
+                res["samples"].append(self.describe(case, o))
         for what in self.post_oracle(bycase, obs):
             res["oracle_failures"].append(what)
         for fid, c, still in finds:
@@ -795,6 +804,32 @@ class ImportSpec(Spec):
             with open(os.path.join(work, "mismatches.json"), "w") as f:
                 json.dump(res["mismatches"][:20], f, indent=1)
         return res
+
+
+class ImportSpec(SimpleSpec):
+    """properties decided on what go_online makes of peers and crates.io"""
+    model_imports = IMPORT_MODEL
+
+    def model_modules_paths(self):
+        return ["ShowImports"]
+
+    def gen_cases(self, rng, n):
+        return [gen.gen_import_case(rng, f"i{i}") for i in range(n)]
+
+    def model_expr(self, o):
+        mi = o["model_input"]
+        return f"slive (go_online {coq(mi['table'])} {coq(mi['imports'])} {coq(mi['crates'])})"
+
+    def canon(self, text):
+        return canon_live(text)
+
+    def tag(self, case, o, c):
+        return "imports:%d" % len(c.get("imports", []))
+
+    def describe(self, case, o):
+        return {"id": case["id"], "config": case["store"]["config"][:700],
+                "peers": {u: t[:500] for u, t in list(case.get("peers", {}).items())[:2]},
+                "observation": o["obs"][:500]}
 
 
 def expected_import(case, o):
@@ -922,6 +957,106 @@ def cid_is_variant(cid):
     return cid.endswith("-junk")
 
 
+
+def canon_c08(text):
+    e = vetlib.parse_sexp(text)
+    out = {"third": e[1][1:]}
+    for sec in e[2:]:
+        for sub in sec[1:]:
+            out[sec[0] + "." + sub[0]] = sorted(set(json.dumps(x) for x in sub[1:]))
+    return out
+
+
+class C08(SimpleSpec):
+    pid = "C08"
+    model_imports = ["Base", "Extracted", "Show", "AuditAs", "ShowAuditAs"]
+    coq_files = ["Properties/C08.v"]
+    theorems = ["C08_crates_io_always_vetted", "C08_unlocked_run_demands_a_choice", "C08_exempt_only_if",
+                "C08_entries_match_packages", "C08_exact_version_chain", "C08_unpublished_choice", "C08_recorded_choice_persists"]
+    level_text = ("Theorems about the model of is_third_party / check_audit_as_crates_io / check_crate_policies / "
+                  "import_unpublished_entries, for all package lists, policy tables and registry states: crates.io packages are always "
+                  "third party; when the unlocked pre-checks pass, every path/git package crates.io seems to know has an explicit "
+                  "choice, nobody claims audit-as-crates-io for an unknown crate, every entry names a package of the graph, hence a "
+                  "package is exempt only if crates.io has no matching crate or the policy says false; a package audited as crates.io is "
+                  "held to the chain rule for its exact version rank (C01); an unpublished version is audited as the nearest earlier, "
+                  "else next later, published version; recorded choices persist whatever crates.io serves later.")
+    level_note = ("The registry-match bit (same name and matching description or repository) is computed by the real crates_io_info + "
+                  "consider_as_same in the harness and is an input of the model; a registry fetch error counts as 'no match' in the code "
+                  "(fail-open) and is outside the property's quantifier. The locked-after-publication history is exercised in C09's histories.")
+    design_ref = "DESIGN.md §4 C08"
+    rule = ("seeded graphs where a quarter of the crates.io packages are turned into path/git packages (several versions of one name "
+            "with different sources), random descriptions/repositories; policy tables with audit-as-crates-io true/false/absent, "
+            "versioned and unversioned entries, missing versions, stray crates and versions, dependency-criteria; a mock crates.io "
+            "that knows 70% of the names with matching / non-matching / absent metadata; non-trivial = at least one pre-check error class fires")
+    projection_doc = "third-party classification of every package; the five error lists of the two pre-checks (as sets of (crate, version))"
+    assumptions = ["mock crates.io"]
+
+    def model_modules_paths(self):
+        return ["ShowAuditAs"]
+
+    def gen_cases(self, rng, n):
+        return [gen.gen_audit_as_case(rng, f"a{i}") for i in range(n)]
+
+    def model_expr(self, o):
+        return f"sc08 {coq(o['model_input']['pkgs'])} {coq(o['model_input']['pols'])}"
+
+    def canon(self, text):
+        return canon_c08(text)
+
+    def nontrivial(self, case, o, c):
+        return any(v for k, v in c.items() if k != "third")
+
+    def tag(self, case, o, c):
+        return "errors" if self.nontrivial(case, o, c) else "clean"
+
+    def oracle(self, case, o, c):
+        """the property text, from the case description (sources, policies, registry)"""
+        out = []
+        pkgs = case["graph"]["packages"]
+        pol = case["store_struct"]["policy"]
+        reg = case["registry"]
+        names = o["tables"]["names"]
+        vers = o["tables"]["versions"]
+        ok = all(not v for k, v in c.items() if k != "third")
+
+        def pol_for(p):
+            e = pol.get(p["name"])
+            if e is None:
+                e = pol.get(f"{p['name']}:{gen.vstr(p)}")
+            return e
+
+        def matches(p):
+            if p["name"] not in reg["packages"]:
+                return False
+            m = reg["meta"].get(p["name"], {})
+            d = p.get("description", "whatever")
+            return (m.get("description") is not None and m.get("description") == d) or \
+                   (m.get("repository") is not None and m.get("repository") == p.get("repository"))
+        # metadata order == case order of packages
+        for i, p in enumerate(pkgs):
+            e = pol_for(p) or {}
+            aa = e.get("audit-as-crates-io")
+            third = c["third"][i] == "1"
+            if p["source"] == "registry" and not third:
+                out.append(f"{p['name']} {p['version']} comes from crates.io but is not treated as third party")
+            if p["source"] != "registry":
+                if third != (aa is True):
+                    out.append(f"{p['name']} {p['version']} ({p['source']}): third-party={third} but policy audit-as-crates-io={aa}")
+                if ok and matches(p) and aa is None:
+                    out.append(f"pre-checks pass although {p['name']} matches a crates.io crate and has no audit-as-crates-io choice")
+                if ok and aa is True and not matches(p):
+                    out.append(f"pre-checks pass although {p['name']} claims audit-as-crates-io = true for something crates.io does not know")
+        if ok:
+            for key, e in pol.items():
+                n, _, v = key.partition(":")
+                cands = [p for p in pkgs if p["name"] == n and (not v or gen.vstr(p) == v)]
+                if not cands:
+                    out.append(f"pre-checks pass although policy entry {key!r} matches no package")
+                elif e.get("audit-as-crates-io") is not None and not [p for p in cands if p["source"] != "registry"]:
+                    out.append(f"pre-checks pass although audit-as-crates-io entry {key!r} matches no path/git package")
+        return out
+
+
 import hist  # noqa: E402
 
 
@@ -1043,7 +1178,7 @@ class C13(HistorySpec):
     assumptions = C09.assumptions
 
 
-REGISTRY = {c.pid: c for c in [C01, C02, C04, C05, C06, C07, C09, C10, C11, C12, C13]}
+REGISTRY = {c.pid: c for c in [C01, C02, C04, C05, C06, C07, C08, C09, C10, C11, C12, C13]}
 
 
 def get(pid):
